@@ -49,7 +49,7 @@ func concWorkloads() []concWL {
 func concObserve(p parsley.Parser, eval bool, in string) J {
 	o := J{"in": in}
 	if m := safely(func() {
-		f := text.NewFile("f", []byte(in))
+		f := mkFile("f", []byte(in))
 		ctx := parsley.NewContext(parsley.NewFileSet(f), text.NewReader(f))
 		if eval {
 			v, err := parsley.Evaluate(ctx, p)
@@ -134,7 +134,7 @@ func gatedRun(p parsley.Parser, inputs []string, sched []int) [][]J {
 			if sc != nil {
 				<-g.turn
 			}
-			f := text.NewFile("f", []byte(inputs[i]))
+			f := mkFile("f", []byte(inputs[i]))
 			ctx := parsley.NewContext(parsley.NewFileSet(f), text.NewReader(f))
 			ctx.SetUserContext(g)
 			p.Parse(ctx, data.EmptyIntMap, f.Pos(0))
@@ -276,7 +276,7 @@ func concMain(mode string, a args) {
 				in := fmt.Sprintf("kw_%d_%d", g, i)
 				ob := J{"in": in}
 				if m := safely(func() {
-					f := text.NewFile("f", []byte(in))
+					f := mkFile("f", []byte(in))
 					ctx := parsley.NewContext(parsley.NewFileSet(f), text.NewReader(f))
 					v, err := parsley.Evaluate(ctx, kw)
 					ob["val"], ob["err"] = fmt.Sprintf("%v", v), fmt.Sprintf("%v", err)
